@@ -123,7 +123,47 @@ func isErrResultOf(v ssa.Value, call ssa.Value) bool {
 	if ex, ok := v.(*ssa.Extract); ok && ex.Tuple == call && isErrorType(ex.Type()) {
 		return true
 	}
+	// a loop-carried error variable fed only by equivalent calls
+	// (`for err := f(); err != nil; err = f()`): every edge is the error of a
+	// call of the same callee, one of them being `call`
+	if phi, ok := v.(*ssa.Phi); ok && isErrorType(phi.Type()) {
+		cc, isCall := call.(*ssa.Call)
+		if !isCall {
+			return false
+		}
+		hit := false
+		for _, e := range phi.Edges {
+			e = stripConv(e)
+			var ec *ssa.Call
+			switch x := e.(type) {
+			case *ssa.Call:
+				ec = x
+			case *ssa.Extract:
+				ec, _ = x.Tuple.(*ssa.Call)
+			}
+			if ec == nil || !sameCallee(ec, cc) {
+				return false
+			}
+			if ec == cc {
+				hit = true
+			}
+		}
+		return hit
+	}
 	return false
+}
+
+func sameCallee(a, b *ssa.Call) bool {
+	if a.Call.IsInvoke() != b.Call.IsInvoke() {
+		return false
+	}
+	if a.Call.IsInvoke() {
+		return a.Call.Method == b.Call.Method && sameSource(a.Call.Value, b.Call.Value)
+	}
+	if sa, sb := a.Call.StaticCallee(), b.Call.StaticCallee(); sa != nil || sb != nil {
+		return sa == sb
+	}
+	return sameSource(a.Call.Value, b.Call.Value)
 }
 
 // nilTest decomposes cond into (x, isNilWhenTrue) for `x == nil` / `x != nil`.
@@ -489,44 +529,80 @@ func deepSlice(fn *ssa.Function, v ssa.Value, visit func(x ssa.Value) (descend b
 // isFullRangeOver: idx is the induction variable of a `for i := range X`
 // style loop over exactly X (phi [-1, idx+1], compared with len(X)).
 func isFullRangeIndex(idx ssa.Value, X ssa.Value) bool {
-	// go/ssa: rangeindex: phi [-1, t+1]; t = phi + 1; if t < len(X)
-	inc, ok := idx.(*ssa.BinOp)
-	if !ok || inc.Op != token.ADD {
-		return false
-	}
-	phi, ok := inc.X.(*ssa.Phi)
-	if !ok {
-		return false
-	}
-	if c, ok := constInt(inc.Y); !ok || c != 1 {
-		return false
-	}
-	hasInit, hasBack := false, false
-	for _, e := range phi.Edges {
-		if c, ok := constInt(e); ok && c == -1 {
-			hasInit = true
-		} else if e == inc {
-			hasBack = true
-		} else {
+	lenOfX := func(v ssa.Value) bool {
+		c, ok := v.(*ssa.Call)
+		if !ok {
 			return false
 		}
+		bi, ok := c.Call.Value.(*ssa.Builtin)
+		return ok && bi.Name() == "len" && len(c.Call.Args) == 1 && (c.Call.Args[0] == X || sameSource(c.Call.Args[0], X))
 	}
-	if !hasInit || !hasBack {
-		return false
-	}
-	// comparison inc < len(X)
-	if refs := inc.Referrers(); refs != nil {
-		for _, r := range *refs {
-			if b, ok := r.(*ssa.BinOp); ok && b.Op == token.LSS && b.X == inc {
-				if c, ok := b.Y.(*ssa.Call); ok {
-					if bi, ok := c.Call.Value.(*ssa.Builtin); ok && bi.Name() == "len" && len(c.Call.Args) == 1 && c.Call.Args[0] == X {
+	comparedWithLen := func(v ssa.Value) bool {
+		if refs := v.Referrers(); refs != nil {
+			for _, r := range *refs {
+				if b, ok := r.(*ssa.BinOp); ok {
+					if b.Op == token.LSS && b.X == v && lenOfX(b.Y) {
+						return true
+					}
+					if b.Op == token.GTR && b.Y == v && lenOfX(b.X) {
 						return true
 					}
 				}
 			}
 		}
+		return false
+	}
+	// form 1 (go/ssa range loop): phi [-1, t+1]; t = phi + 1; if t < len(X); index = t
+	if inc, ok := idx.(*ssa.BinOp); ok && inc.Op == token.ADD {
+		phi, ok := inc.X.(*ssa.Phi)
+		if !ok {
+			return false
+		}
+		if c, ok := constInt(inc.Y); !ok || c != 1 {
+			return false
+		}
+		hasInit, hasBack := false, false
+		for _, e := range phi.Edges {
+			if c, ok := constInt(e); ok && c == -1 {
+				hasInit = true
+			} else if e == ssa.Value(inc) {
+				hasBack = true
+			} else {
+				return false
+			}
+		}
+		return hasInit && hasBack && comparedWithLen(inc)
+	}
+	// form 2 (three-clause loop): phi [0, phi+1]; if phi < len(X); index = phi
+	if phi, ok := idx.(*ssa.Phi); ok {
+		hasInit, hasBack := false, false
+		for _, e := range phi.Edges {
+			if c, ok := constInt(e); ok && c == 0 {
+				hasInit = true
+			} else if inc, ok := e.(*ssa.BinOp); ok && inc.Op == token.ADD && inc.X == ssa.Value(phi) {
+				if c, ok := constInt(inc.Y); ok && c == 1 {
+					hasBack = true
+				} else {
+					return false
+				}
+			} else {
+				return false
+			}
+		}
+		return hasInit && hasBack && comparedWithLen(phi)
 	}
 	return false
+}
+
+// rangeIndexHeader: the loop header block of a full range index.
+func rangeIndexHeader(idx ssa.Value) *ssa.BasicBlock {
+	switch x := idx.(type) {
+	case *ssa.BinOp:
+		return x.Block()
+	case *ssa.Phi:
+		return x.Block()
+	}
+	return nil
 }
 
 // rangeElem: v is the element X[i] of a full range loop over X (load of
@@ -764,3 +840,21 @@ func topFunc(f *ssa.Function) *ssa.Function {
 }
 
 func sortStrings(s []string) { sort.Strings(s) }
+
+// isReceiverValue: v denotes fn's receiver – the parameter itself or a load
+// of the cell it was spilled into (go/ssa spills parameters captured by closures).
+func isReceiverValue(fn *ssa.Function, v ssa.Value) bool {
+	if fn == nil || len(fn.Params) == 0 {
+		return false
+	}
+	if v == ssa.Value(fn.Params[0]) {
+		return true
+	}
+	if u, ok := v.(*ssa.UnOp); ok && u.Op == token.MUL {
+		if al, ok := u.X.(*ssa.Alloc); ok {
+			ss := cellStores(al)
+			return len(ss) == 1 && ss[0] == ssa.Value(fn.Params[0])
+		}
+	}
+	return false
+}
